@@ -219,21 +219,21 @@ var (
 func tof(x interface{}) reflect.Type { return reflect.TypeOf(x) }
 
 var customs = map[reflect.Type]customSpec{
-	tof(types.Transaction{}):        {"ident", typesWire["txdata"], tof(wireTx{})},
-	tof(types.Block{}):              {"ident", typesWire["extblock"], tof(wireBlock{})},
-	tof(types.Receipt{}):            {"receiptStatus", typesWire["receiptRLP"], tof(wireReceipt{})},
-	tof(types.ReceiptForStorage{}):  {"receiptStatus", typesWire["receiptStorageRLP"], tof(wireReceiptStorage{})},
-	tof(types.Log{}):                {"ident", typesWire["rlpLog"], tof(wireLog{})},
-	tof(types.LogForStorage{}):      {"ident", typesWire["rlpStorageLog"], tof(wireStorageLog{})},
-	tof(state.Validator{}):          {"expelled", stateWire["rlpVal"], tof(wireVal{})},
-	tof(state.ValKindStat{}):        {"ident", nil, tof(wireValKindStat{})},
-	tof(state.ValidatorsStat{}):     {"ident", nil, tof(wireValidatorsStat{})},
-	tof(state.Validators{}):         {"ident", nil, tof(wireValidators{})},
-	tof(state.ValidatorIndex{}):     {"addrSet", nil, tof([]common.Address{})},
-	pendingT:                        {"ident", stateWire["biAddresses"], tof([]*[40]byte{})},
-	tof(ucon.Message{}):             {"ident", nil, tof(wireUconMessage{})},
-	tof(staking.LogData{}):          {"ident", nil, tof(wireLogData{})},
-	tof(staking.SlashData{}):        {"ident", nil, tof(wireSlashData{})},
+	tof(types.Transaction{}):          {"ident", typesWire["txdata"], tof(wireTx{})},
+	tof(types.Block{}):                {"ident", typesWire["extblock"], tof(wireBlock{})},
+	tof(types.Receipt{}):              {"receiptStatus", typesWire["receiptRLP"], tof(wireReceipt{})},
+	tof(types.ReceiptForStorage{}):    {"receiptStatus", typesWire["receiptStorageRLP"], tof(wireReceiptStorage{})},
+	tof(types.Log{}):                  {"ident", typesWire["rlpLog"], tof(wireLog{})},
+	tof(types.LogForStorage{}):        {"ident", typesWire["rlpStorageLog"], tof(wireStorageLog{})},
+	tof(state.Validator{}):            {"expelled", stateWire["rlpVal"], tof(wireVal{})},
+	tof(state.ValKindStat{}):          {"ident", nil, tof(wireValKindStat{})},
+	tof(state.ValidatorsStat{}):       {"ident", nil, tof(wireValidatorsStat{})},
+	tof(state.Validators{}):           {"ident", nil, tof(wireValidators{})},
+	tof(state.ValidatorIndex{}):       {"addrSet", nil, tof([]common.Address{})},
+	pendingT:                          {"ident", stateWire["biAddresses"], tof([]*[40]byte{})},
+	tof(ucon.Message{}):               {"ident", nil, tof(wireUconMessage{})},
+	tof(staking.LogData{}):            {"ident", nil, tof(wireLogData{})},
+	tof(staking.SlashData{}):          {"ident", nil, tof(wireSlashData{})},
 	tof(staking.EvidenceDoubleSign{}): {"dsMap", nil, tof(wireDoubleSign{})},
 }
 
